@@ -516,6 +516,24 @@ def run_check(plugin_mod, tier, seed, replay=None):
         lines.append("KNOWN-FINDING: property=%s %s (%d cases in this run, e.g. %s)" % (
             prop, known[fid]["description"], len(idxs), json.dumps(humans[idxs[0]], default=str)[:200]))
 
+    # canaries: corrupted implementation outputs that the decider must reject (guards against a vacuous decider)
+    canary_total = canary_rejected = 0
+    canary_accepted = []
+    if hasattr(pl, "canary") and ob["ok"] and good and not replay:
+        step = max(1, len(good) // 300)
+        cans = []
+        for r in good[::step]:
+            for bad in pl.canary(humans[r["idx"]], r) or []:
+                cans.append((r["cin"], bad))
+        if cans:
+            try:
+                _, cdb, _ = eval_cases(pl.COQ, cans)
+                canary_total = len(cans)
+                canary_rejected = len(cdb)
+                canary_accepted = [cans[i] for i in range(len(cans)) if i not in cdb][:5]
+            except RuntimeError as e:
+                canary_accepted = [("coq error", str(e)[-300:])]
+
     # evidence
     shapes = {}
     nontriv = set()
@@ -548,6 +566,8 @@ def run_check(plugin_mod, tier, seed, replay=None):
             "decider_failures": len(dec_bad),
             "outside_proved_class": len(good) - len([r for r in good if r["idx"] in incl]),
             "hangs": len(hangs),
+            "canaries_corrupted_outputs": canary_total, "canaries_rejected_by_decider": canary_rejected,
+            "canaries_accepted_samples": canary_accepted,
             "by_shape": shapes,
             "known_findings_reproduced": {k: len(v) for k, v in known_hit.items()},
             "exhaustive": bool(getattr(pl, "EXHAUSTIVE", {}).get(tier, False)),
